@@ -76,7 +76,7 @@ class ByteChanSpec(Spec):
         ],
     }
     assumptions = [
-        "streams declaring frame sizes > 64x64, depths > 4, > 16x16 slices, excursions > 2^72 or base-format-sized pictures are discarded as out of scope (counted)",
+        "streams declaring frame sizes > 64x64, transform depths > 4, > 16x16 slices, excursions > 2^72 or base-format-sized pictures are discarded as out of scope (counted)",
         "faults are persistent (at rest): every receiver sees the same faulted bytes",
     ]
     fault_kinds = F.ALL_KINDS
@@ -127,8 +127,14 @@ class ByteChanSpec(Spec):
                 pass
 
     # ---- generation
+    p_wide = 0.001
+
     def draw_source(self, rng):
         r = rng.random()
+        if rng.random() < self.p_wide:
+            # an extreme-aspect picture (seconds per run: kept rare)
+            wc = W.wide_configs()
+            return {"cfg": dict(wc[rng.randrange(len(wc))])}
         if r < 0.04:
             n = rng.choice([0, 1, 4, 13, 14, 40, 100])
             head = rng.choice([b"", b"BBCD", b"BBCD\x00", b"BBCD\x10"])
